@@ -33,6 +33,17 @@ def make(rng, sid, hist):
             items.append(g.blank_item())
         else:
             items.append(g.entry_item())
+    if rng.random() < 0.15:
+        # a section whose name has brackets of its own ("[[unit]]" is the section "[unit]") next to the plain section of that
+        # name, both with the same key: the extended getter takes the section name as the listing gives it
+        nm = g.section_name().strip(b" \t[]") or b"unit"
+        k = g.key()
+        sec = g.section_item()
+        twin = [dict(sec, lines=[b"[[" + nm + b"]]"], name=b"[" + nm + b"]", tc=None), g.comment_item(), g.entry_item(k),
+                dict(sec, lines=[b"[" + nm + b"]"], name=nm, tc=None), g.entry_item(k)]
+        if rng.random() < 0.5:
+            twin = twin[3:] + twin[:3]
+        items += twin
     content = gen_doc.render(items, rng.random() < 0.9)
     way, cd, rel = rng.choice(WAYS)
     s = Scenario(sid, {"items": items, "delim": delim, "comment": comment, "cls": g.cls, "content": content, "way": way})
